@@ -167,6 +167,15 @@ InvSel == IF "VERIF_INVS" \in DOMAIN IOEnv /\ IOEnv.VERIF_INVS # ""
 Failing == IF A.name = "Stabilized" THEN {nm \in InvSel \cap {"C15_Converged", "C14_NoPanic"} : ~Holds(nm)}
            ELSE IF ~C03_WellFormed THEN {"C03_WellFormed"} ELSE {nm \in InvSel : ~Holds(nm)}
 
+\* Witness predicates of known findings (known_findings.json): a violation whose state satisfies
+\* one is tagged, so that the orchestrator reports it as KNOWN-FINDING instead of VIOLATION.
+\* KF-F6: the sole voter answers ReadIndex from its commit index before it has committed an entry
+\*        of its own term (the single-voter shortcut precedes the own-term check).
+KFTags(nm) ==
+  IF nm = "C11_ServedByRealLeader" /\ BothUp /\ Pre.role = "L" /\ IsSingleton(Pre) /\ I \in VotersIn(Pre.cfg)
+     /\ ZeroTerm(LogTerm(Pre, PostD, Pre.commit)) # Pre.term
+  THEN <<"KF-F6">> ELSE <<>>
+
 \* ---- Conform mode: the specification's own transition, applied to the observed pre-state,
 \* must yield the observed post-state (node record, disk record, return value, Ready contents).
 \* A disagreement is DRIFT (the specification misdescribes the code or the code changed its
@@ -230,7 +239,7 @@ ObsNext ==
                     /\ (ShowDetail /\ Trace[l + 1].n.up) => PrintT(<<"DETAIL", DriftDetail(Trace[l + 1])>>)
   /\ LET bad == Failing'
      IN  /\ viol' = viol \cup {<<l + 1, nm>> : nm \in bad}
-         /\ \A nm \in bad : PrintT(<<"OBS-VIOLATION", nm, "line", l + 1, "tr", Trace[l + 1].tr, "act", Trace[l + 1].act, "node", Trace[l + 1].node>>)
+         /\ \A nm \in bad : PrintT(<<"OBS-VIOLATION", nm, "line", l + 1, "tr", Trace[l + 1].tr, "act", Trace[l + 1].act, "node", Trace[l + 1].node>> \o KFTags(nm)')
 
 \* every observed state is identified by its position in the trace file
 ObsView == l
